@@ -130,6 +130,14 @@ func (a *API) RoundTrip(req *http.Request) (*http.Response, error) {
 			Data any    `json:"data"`
 		}
 		all := []rec{}
+		known := false
+		for _, zz := range a.Zones {
+			known = known || zz.ID == zid
+		}
+		if !known || !strings.HasPrefix(p, "/"+zid+"/") {
+			// like the real API: no listing for a zone id that does not exist (or an empty one)
+			return jsonResp(req, 404, `{"success":false,"errors":[{"code":7003,"message":"Could not route to /zones/`+zid+`/dns_records, perhaps your object identifier is invalid?"}],"messages":[],"result":null}`), nil
+		}
 		for _, zz := range a.Zones {
 			if zz.ID != zid {
 				continue
